@@ -168,6 +168,18 @@ func (sn *Snap) CanonRouting() string {
 
 func (s *Sim) CanonRouting() string { return s.Snap().CanonRouting() }
 
+// Fresh reports whether router i already holds router j's current advertisement: the exchange
+// X(i<j) would then change nothing but bookkeeping (sequence number, last-seen time) and maps the
+// state to the same canonical state.
+func (sn *Snap) Fresh(i, j int) bool {
+	for _, v := range sn.nb[i] {
+		if sn.s.IdxH(v.NameH) == j {
+			return sn.rel(v) == "fresh" && v.FaceId == sn.s.FaceID(i, j) && v.Active == !sn.s.Passive[[2]int{i, j}]
+		}
+	}
+	return false
+}
+
 // Mode is the environment part of the state: which routers are up and which links are live.
 func (s *Sim) Mode() string {
 	var up, ln []string
